@@ -12,7 +12,10 @@ Translator plugin for C08 (subshell isolation): the field-to-field maps of the f
       stateCloneFromMap    … `fn clone_from`
       cloneWithSystemMap   `Env::clone_with_system`: (env field, env field read | "@system")
       processFields        fields of `pub struct Process` (yash-env/src/system/virtual/process.rs)
-      processForkMap       `Process::fork_from`: (child field written, parent field read | "@ppid")
+      processForkMap       `Process::fork_from`: (child field written, parent field read | "@ppid"); two source shapes
+                           are understood (default construction + assignments; one struct literal with a `..base`
+                           tail, where a `..parent.clone()` base inherits every field not listed) — anything else
+                           is a loud failure
       interiorMutability   static audit: every `Rc<…>` / `RefCell<…>` / `Cell<…>` / `Weak<…>` / `OnceCell<…>`
                            found in a type reachable from a non-`system` field of `Env`, as
                            (Env field, kind, path from the field, declaration text); `dyn` marks an opaque trait object
@@ -147,6 +150,7 @@ def _index_types(x, repo):
 
 
 def _balanced(src, i):
+    """text between the delimiter at src[i] and its match (ValueError if unbalanced)"""
     open_c = src[i]
     close_c = {"{": "}", "(": ")"}[open_c]
     depth = 0
@@ -221,6 +225,139 @@ def _audit(x, env_fields):
 # ---------------------------------------------------------------------------------------------
 
 
+def _split_stmts(body):
+    """Split a block body at top-level `;` (the last part is the tail expression, possibly empty)."""
+    parts, depth, cur = [], 0, ""
+    for c in body:
+        if c in "([{":
+            depth += 1
+        elif c in ")]}":
+            depth -= 1
+        if c == ";" and depth == 0:
+            parts.append(cur.strip())
+            cur = ""
+        else:
+            cur += c
+    parts.append(cur.strip())
+    return parts
+
+
+FRESH_CTOR = r"(?:Self|Process)::with_parent_and_group\(\s*(\w+)\s*,\s*parent\.(\w+)\s*\)"
+
+
+def _parent_read(expr):
+    """`parent.f` | `parent.f.clone()` -> f ; anything else -> None"""
+    m = re.fullmatch(r"parent\.(\w+)(?:\.clone\(\))?", expr.strip())
+    return m.group(1) if m else None
+
+
+def _fork_from_map(x, proc, fields):
+    """(child field, parent field | "@<param>") for every field `Process::fork_from` takes from its arguments.
+    Two shapes are understood; anything else fails loudly.
+      (a) `let mut c = Self::with_parent_and_group(p, parent.g); c.f = parent.f[.clone()]; c.f.clone_from(&parent.f); …; c`
+      (b) `Process { f: <expr>, …, ..<base> }` — a listed field is inherited iff its expression is `parent.f[.clone()]`
+          (a bare parameter gives `@param`; an expression not mentioning `parent` is a fresh value); the base is the
+          fresh-process constructor (then nothing else is inherited) or `parent.clone()` / `*parent` / `parent`
+          (then EVERY field not listed is inherited)."""
+    what = f"fn fork_from in {PROC}"
+    m = re.search(r"pub fn fork_from\s*\(([^)]*)\)", proc)
+    if not m:
+        x.fail(f"anchor not found: {what}")
+    params = [q.split(":")[0].strip() for q in m.group(1).split(",") if q.strip()]
+    if "parent" not in params:
+        x.fail(f"{what}: no parameter named `parent`")
+    t = _fn_text(x, proc, r"pub fn fork_from\s*\(", what).strip()
+    out = []
+
+    def add(dst, src):
+        if dst not in fields:
+            x.fail(f"{what}: `{dst}` is not a field of Process")
+        if any(d == dst for d, _ in out):
+            x.fail(f"{what}: field `{dst}` is written twice")
+        out.append((dst, src))
+
+    lit = re.match(r"(?:Process|Self)\s*\{", t)
+    inner = None
+    if lit:
+        try:
+            inner = _balanced(t, lit.end() - 1)
+        except ValueError:
+            x.fail(f"{what}: unbalanced struct literal")
+        if t[lit.end() + len(inner) + 1:].strip():
+            inner = None  # something follows the literal: not shape (b)
+    if inner is not None:
+        # ---- shape (b): one struct literal
+        entries = _split_top(inner)
+        base = None
+        listed = set()
+        for e in entries:
+            if e.startswith(".."):
+                if base is not None:
+                    x.fail(f"{what}: two `..base` tails")
+                base = e[2:].strip()
+                continue
+            m2 = re.match(r"(\w+)\s*(?::\s*(.+))?$", e, re.S)
+            if not m2:
+                x.fail(f"{what}: cannot read the struct-literal entry `{e[:60]}`")
+            f, expr = m2.group(1), " ".join((m2.group(2) or m2.group(1)).split())
+            listed.add(f)
+            src = _parent_read(expr)
+            if src is not None:
+                add(f, src)
+            elif expr in params and expr != "parent":
+                add(f, "@" + expr)
+            elif re.search(r"\bparent\b", expr):
+                x.fail(f"{what}: entry `{f}: {expr}` reads the parent in a way the translator does not understand")
+            elif f not in fields:
+                x.fail(f"{what}: `{f}` is not a field of Process")
+            # otherwise: a fresh value, nothing inherited
+        if base is None:
+            missing = [f for f in fields if f not in listed]
+            if missing:
+                x.fail(f"{what}: struct literal without `..base` does not list {missing}")
+        else:
+            mb = re.fullmatch(FRESH_CTOR, base)
+            if mb:
+                if "ppid" not in listed:
+                    add("ppid", "@" + mb.group(1))
+                if "pgid" not in listed:
+                    add("pgid", mb.group(2))
+            elif re.fullmatch(r"\*?parent(?:\.clone\(\))?|Process::clone\(parent\)|Clone::clone\(parent\)", base):
+                # everything not listed comes from the parent
+                for f in fields:
+                    if f not in listed:
+                        add(f, f)
+            else:
+                x.fail(f"{what}: base expression `..{base}` is neither the fresh-process constructor nor the parent")
+        return out
+
+    # ---- shape (a): default construction followed by assignments
+    stmts = _split_stmts(t)
+    tail = stmts.pop()
+    if not stmts:
+        x.fail(f"{what}: body is neither a struct literal nor `let mut child = …; …; child`")
+    m1 = re.fullmatch(r"let\s+mut\s+(\w+)\s*=\s*" + FRESH_CTOR, stmts[0])
+    if not m1:
+        x.fail(f"{what}: first statement `{stmts[0][:70]}` is not `let mut child = Self::with_parent_and_group(p, parent.g)`")
+    var = m1.group(1)
+    if tail != var:
+        x.fail(f"{what}: the function does not end in the constructed value `{var}` (tail: `{tail[:40]}`)")
+    add("ppid", "@" + m1.group(2))
+    add("pgid", m1.group(3))
+    v = re.escape(var)
+    for st in stmts[1:]:
+        m2 = re.fullmatch(v + r"\.(\w+)\.clone_from\(\s*&parent\.(\w+)\s*\)", st) \
+            or re.fullmatch(v + r"\.(\w+)\s*=\s*parent\.(\w+)(?:\.clone\(\))?", st)
+        if m2:
+            add(m2.group(1), m2.group(2))
+            continue
+        m3 = re.fullmatch(v + r"\.(\w+)\s*=\s*(.+)", st, re.S)
+        if m3 and not re.search(r"\bparent\b", m3.group(2)):
+            continue  # a fresh value
+        x.fail(f"{what}: statement `{st[:70]}` is not an assignment of a parent field the translator understands")
+    return out
+
+
 def fork_maps(x):
     lib = x.read(LIB)
     fork = x.read(FORK)
@@ -284,15 +421,7 @@ def fork_maps(x):
         cws.append((f, "@system") if e == "system" else (f, _src_field(x, e, "self", "clone_with_system")[0]))
 
     # Process::fork_from
-    t = _fn_text(x, proc, r"pub fn fork_from\s*\(", f"fn fork_from in {PROC}")
-    pfork = []
-    m = re.search(r"with_parent_and_group\(\s*(\w+)\s*,\s*parent\.(\w+)\s*\)", t)
-    if not m:
-        x.fail("fork_from: `Self::with_parent_and_group(ppid, parent.pgid)` not found")
-    pfork.append(("ppid", "@" + m.group(1)))
-    pfork.append(("pgid", m.group(2)))
-    for m in re.finditer(r"\bchild\.(\w+)\.clone_from\(\s*&parent\.(\w+)\s*\)\s*;|\bchild\.(\w+)\s*=\s*parent\.(\w+)(?:\.clone\(\))?\s*;", t):
-        pfork.append((m.group(1) or m.group(3), m.group(2) or m.group(4)))
+    pfork = _fork_from_map(x, proc, [f for f, _ in proc_fields])
 
     audit = _audit(x, env_fields)
     for fld, kd, p, d in audit:
